@@ -693,6 +693,9 @@ pub enum SOp {
     /// the documented hot-swap on the governed animator: `Animator::set_timeline(tls[i])` (keeps state and
     /// position; the selector's registered timelines are not affected and come back at the next key change)
     HotSwap(u8),
+    /// the application edits the public `AnimationChain::next_keys` map at run time: insert (from, to)
+    /// (from != to); an entry added after an animation has ended does not fire retroactively
+    ChainInsert(u8, u8),
 }
 
 #[derive(Clone, Debug, Serialize, Deserialize)]
@@ -722,6 +725,7 @@ fn c19_strategy() -> impl Strategy<Value = C19Case> {
         3 => (0u8..4).prop_map(SOp::SetKey),
         1 => any::<bool>().prop_map(SOp::Enable),
         1 => (0u8..3).prop_map(SOp::HotSwap),
+        1 => (0u8..4, 0u8..4).prop_map(|(f, t)| SOp::ChainInsert(f, t)),
     ];
     let chain = prop::option::weighted(
         0.7,
@@ -743,7 +747,7 @@ fn c19_strategy() -> impl Strategy<Value = C19Case> {
         .prop_map(|(tls, initial_key, chain, with_b, start, ops, b_delay, ctor_timeline)| C19Case { tls, initial_key, chain, with_b, b_delay, ctor_timeline, start, ops })
 }
 
-const C19_LABELS: [&str; 17] = ["key_change_mid_flight", "chain_fired", "end_without_chain_entry", "other_animator_ended", "key_set_in_gap_after_end", "same_key_reassigned", "key_without_timeline", "has_chain", "two_component_types", "chain_first_order_consistent", "select_first_order_consistent", "ended_reached", "animator_disabled", "animator_constructed_with_a_timeline", "chain_made_with_reset_after", "hot_swap_under_a_selector", "second_component_selected_by_the_same_key_type"];
+const C19_LABELS: [&str; 18] = ["key_change_mid_flight", "chain_fired", "end_without_chain_entry", "other_animator_ended", "key_set_in_gap_after_end", "same_key_reassigned", "key_without_timeline", "has_chain", "two_component_types", "chain_first_order_consistent", "select_first_order_consistent", "ended_reached", "animator_disabled", "animator_constructed_with_a_timeline", "chain_made_with_reset_after", "hot_swap_under_a_selector", "second_component_selected_by_the_same_key_type", "chain_map_edited_at_run_time"];
 
 /// One hypothesis about the (unspecified but fixed) relative order of chain_animations / select_animation.
 struct Hyp {
@@ -861,6 +865,19 @@ fn c19_judge(c: &C19Case, obs: &mut Obs) -> Result<(), String> {
             SOp::Enable(on) => {
                 w.app.world.get_mut::<Animator<A>>(entity).unwrap().enabled = on;
                 obs.label_if(12, !on);
+            }
+            SOp::ChainInsert(f, t) => {
+                let (f, t) = (f % 4, t % 4);
+                // (only on entities with a single animator: with a second animated component type the
+                // pristine plugin cannot tell whose Ended event it reads once the governed animator rests
+                // in Ended - a run-time edit is outside the statement's "chains with and without entries")
+                if f != t && c.chain.is_some() && c.with_b.is_none() {
+                    if let Some(mut ch) = w.app.world.get_mut::<AnimationChain<K>>(entity) {
+                        ch.next_keys.insert(KEYS[f as usize], KEYS[t as usize]);
+                        chain_map.insert(f, t);
+                        obs.label(17);
+                    }
+                }
             }
             SOp::HotSwap(i) => {
                 let d = &c.tls[i as usize % c.tls.len().max(1)];
